@@ -242,10 +242,28 @@ def run(cx):
     b = cx.fn(f'{CF}::calc_face_angles')
     if b:
         pushes = b.calls('Vec::push')
-        ok = len(pushes) == 1
+        al = None
+        if len(pushes) == 1:
+            al = cx.arg_alts(pushes[0], 1)
+        elif not pushes:
+            # the same per-face alternatives as the body of `face_edges.iter().map(|face_indices| ..).collect()`: the closure's return alternatives, with the
+            # closure's item read as the running element of face_edges and its capture of the mesh as the parameter
+            from vpa import inline as INF
+            r0 = cx.retval(b)
+            em = find('(call Iterator::map (field face_edges (param mesh)) $cl)', r0)
+            cl = cx.closure_body(em[1]['cl'][1]) if em is not None and em[1]['cl'][0] == 'closure' else None
+            if cl is not None and cl.exits():
+                def sub(n):
+                    if n[0] == 'param' and n[1] == 2:
+                        return ('itervar', ('field', 'face_edges', ('param', 1, 'mesh')))
+                    if n[0] == 'field' and len(n) == 3 and str(n[1]).startswith('cap:') and n[2][0] == 'param' and n[2][1] == 1:
+                        return ('param', 1, 'mesh')
+                    return None
+                ex = cl.exits()[0]
+                al = [(bb_, simplify(INF.subst(dv_, sub)), [(simplify(INF.subst(a_, sub)), p_) for a_, p_ in g_])
+                      for (bb_, dv_, g_) in cx.alts(cl, {'k': 'copy', 'pl': {'l': 0, 'p': []}}, ex, len(cl.blocks[ex]['stmts']) + 1)]
+        ok = al is not None
         if ok:
-            s = pushes[0]
-            al = cx.arg_alts(s, 1)
             gen = [dv for _, dv, g in al if find('(call f64::acos _)', dv) is not None]
             ok = len(gen) == 1 and len(al) == 4
             if ok:
@@ -263,8 +281,7 @@ def run(cx):
         # the generic (law of cosines) alternative is reached exactly when no side is STRICTLY longer than the other two together: a tolerance
         # on that test turns a valid flat triangle into a (pi, 0, 0) face whose cotangents are infinite
         okg = False
-        if len(pushes) == 1:
-            al = cx.arg_alts(pushes[0], 1)
+        if al is not None:
             gen = [(dv, g) for _, dv, g in al if find('(call f64::acos _)', dv) is not None]
             if len(gen) == 1:
                 LPk = lambda k: f'(index (field edge_lengths (param mesh)) (index (itervar (field face_edges (param mesh))) {k}))'
